@@ -117,7 +117,7 @@ deriving Repr
 structure LSt where
   docs : List Node := []
   docStack : List (Node × Nat) := []     -- head = top
-  keyStack : List Node := []             -- head = top
+  keyStack : List (Option Node) := []    -- head = top; `none` = the next node is a key
   anchors : List (Nat × Node) := []
 deriving Repr
 
@@ -130,7 +130,7 @@ def anchorsInsert (a : List (Nat × Node)) (id : Nat) (n : Node) : List (Nat × 
   (id, n) :: a.filter (fun p => p.1 != id)
 def anchorsGet (a : List (Nat × Node)) (id : Nat) : Option Node := (a.find? (fun p => p.1 == id)).map (·.2)
 
-/-- `insert_new_node` (as in the source: `BadValue` in `key_stack` means "no key yet") -/
+/-- `insert_new_node` -/
 def insertNewNode (s : LSt) (n : Node) (aid : Nat) : LRes :=
   let s := if aid > 0 then { s with anchors := anchorsInsert s.anchors aid n } else s
   match s.docStack with
@@ -139,9 +139,8 @@ def insertNewNode (s : LSt) (n : Node) (aid : Nat) : LRes :=
   | (.map sp m, a) :: rest =>
     match s.keyStack with
     | [] => .panic .keyStackLastUnwrap
-    | k :: ks =>
-      if k.isBad then .ok { s with keyStack := n :: ks }
-      else .ok { s with docStack := (.map sp (mapInsert k n m), a) :: rest, keyStack := .bad Span.dflt :: ks }
+    | none :: ks => .ok { s with keyStack := some n :: ks }
+    | some k :: ks => .ok { s with docStack := (.map sp (mapInsert k n m), a) :: rest, keyStack := none :: ks }
   | _ :: _ => .ok s
 
 def onEvent (c : LCfg) (s : LSt) (e : Event) (sp : Span) : LRes :=
@@ -160,7 +159,7 @@ def onEvent (c : LCfg) (s : LSt) (e : Event) (sp : Span) : LRes :=
     | (n, a) :: rest => insertNewNode { s with docStack := rest } n a
   | .mappingStart aid _ =>
     .ok { s with docStack := (Node.withSpan c.marked (.map Span.dflt []) sp, aid) :: s.docStack,
-                 keyStack := .bad Span.dflt :: s.keyStack }
+                 keyStack := none :: s.keyStack }
   | .mappingEnd =>
     match s.keyStack with
     | [] => .panic .keyStackPopUnwrap
@@ -183,50 +182,32 @@ def foldEvents (c : LCfg) : LSt → List (Event × Span) → LRes
 
 -- parse_representation ----------------------------------------------------------------------------
 
-/-- `parse_representation` (as in the source: `take()` is restored only for `Representation`). -/
+/-- `parse_representation`: a `Representation` is resolved (BadValue when the tag forces a type
+    the text does not have); every other node is put back untouched. -/
 def parseRepr : Node → Node
   | .repr sp v style tag =>
     match parseWithMeta v style tag with
     | some s => .value sp s
     | none => .bad sp
-  | n => .bad (match n with
-      | .repr sp .. | .value sp _ | .seq sp _ | .map sp _ | .alias sp _ | .bad sp => sp)
+  | n => n
 
 mutual
-/-- `parse_representation_recursive`, faithfully: the `Sequence` arm resolves the children of the
-    *taken* vector and drops it; `_ => true` leaves the `BadValue` written by `take()`. For the
-    marked kinds the method is called on `data`, so the span of the node itself is untouched. -/
+/-- `parse_representation_recursive`. Mapping pairs are re-inserted (`collect` into a fresh
+    `LinkedHashMap`), so keys that become equal after resolution merge. -/
 def parseReprRec : Node → Node
   | .repr sp v style tag =>
     match parseWithMeta v style tag with
     | some s => .value sp s
     | none => .bad sp
-  | .seq sp _ => .bad sp
+  | .seq sp xs => .seq sp (parseReprList xs)
   | .map sp ps => .map sp (parseReprPairs ps [])
-  | .value sp _ => .bad sp
-  | .alias sp _ => .bad sp
-  | .bad sp => .bad sp
+  | n => n
+def parseReprList : List Node → List Node
+  | [] => []
+  | x :: xs => parseReprRec x :: parseReprList xs
 def parseReprPairs : List (Node × Node) → List (Node × Node) → List (Node × Node)
   | [], acc => acc
   | (k, v) :: ps, acc => parseReprPairs ps (mapInsert (parseReprRec k) (parseReprRec v) acc)
-end
-
-mutual
-/-- the repaired function: what the documentation promises (used by C19's theorems as the spec) -/
-def resolveRec : Node → Node
-  | .repr sp v style tag =>
-    match parseWithMeta v style tag with
-    | some s => .value sp s
-    | none => .bad sp
-  | .seq sp xs => .seq sp (resolveList xs)
-  | .map sp ps => .map sp (resolvePairs ps [])
-  | n => n
-def resolveList : List Node → List Node
-  | [] => []
-  | x :: xs => resolveRec x :: resolveList xs
-def resolvePairs : List (Node × Node) → List (Node × Node) → List (Node × Node)
-  | [], acc => acc
-  | (k, v) :: ps, acc => resolvePairs ps (mapInsert (resolveRec k) (resolveRec v) acc)
 end
 
 end SaphyrModel
